@@ -56,6 +56,11 @@ def run(ctx):
     from . import c01
     from . import cond_spec as _S
     c01.c01_2(ctx, _S.load(), rule="C02.3", only={"name:RESERVE_FEE", "name:CREATE_COIN", "two-byte"})
+    # "the reported puzzle hash is the tree hash of the revealed puzzle": atoms and pairs are hashed by tree_hash_atom / tree_hash_pair
+    # in both traversals (shared with C17.2); and no condition is dropped between cost pre-charging and parsing (shared with C04.2)
+    from . import c17, c04
+    c17.c17_2(ctx, R="C02.4")
+    c04.c04_2(ctx, c04.load(), R="C02.3")
 
 
 def c02_1(ctx):
